@@ -4,7 +4,7 @@ from .. import lean, proto, gen, util
 
 REQUIRED = ['Petl.C14.' + n for n in (
     'transpose_involutive unflatten_flatten melt_row_count melt_cells unpack_frame expand_frame splitdown_frame '
-    'fromcolumns_columns recast_cell pivot_blocks pivot_cell').split()] + ['Petl.RecastMelt.' + n for n in (
+    'fromcolumns_columns recast_cell pivot_blocks pivot_cell pivotRows_spec').split()] + ['Petl.RecastMelt.' + n for n in (
     'recast_melt_rows recast_melt_eq recast_melt_table recast_melt_identity molten_eq_melt group_block strictAsc_ext').split()]
 
 CELLS = [None, 1, 2, 2.5, 'a', 'b', '', True]
